@@ -1,6 +1,7 @@
 package c13
 
 import (
+	"unicode/utf8"
 	"math/rand"
 	"runtime/debug"
 	"strings"
@@ -326,6 +327,27 @@ func (g tg) overlapConfig() rag.OverlapConfig {
 	return oc
 }
 
+// strayAt inserts the byte sequence bad so that it stands where a window of the last
+// max bytes and of the last size bytes of the result starts (moved forward to a
+// character boundary of t); a window longer than the text gets no insertion.
+func strayAt(t string, max, size int, bad string) string {
+	ins := func(t string, k int) string {
+		if k <= 0 || k >= len(t) {
+			return t
+		}
+		for k < len(t) && !utf8.RuneStart(t[k]) {
+			k++
+		}
+		return t[:k] + bad + t[k:]
+	}
+	n := len(t)
+	if max > size {
+		t = ins(t, n+2*len(bad)-max)
+		return ins(t, n+2*len(bad)-size)
+	}
+	return ins(t, n+len(bad)-size)
+}
+
 func genOverlap(r *rand.Rand) *wcase {
 	g := tg{r}
 	w := &wcase{Kind: "overlap", Overlap: g.overlapConfig()}
@@ -339,6 +361,12 @@ func genOverlap(r *rand.Rand) *wcase {
 		t = strings.TrimSpace(t)
 		if t == "" {
 			t = g.pick(asciiWords)
+		}
+		if r.Intn(5) == 0 {
+			// stray bytes (a lone lead or continuation byte, as left by a mis-decoded source)
+			// where the overlap window of this text starts — at len-MaxOverlap and at
+			// len-Size: the bounds hold for every text, valid UTF-8 or not
+			t = strayAt(t, w.Overlap.MaxOverlap, w.Overlap.Size, []string{"\xe9", "\x80", "\xc3", "\xf0\x9f"}[r.Intn(4)])
 		}
 		w.Texts = append(w.Texts, []byte(t))
 		title := ""
